@@ -892,6 +892,50 @@ Section Proofs.
   Theorem append_accounting : forall n0 ops, let s := run n0 ops in
     nextid s = Z.of_nat (length (fed s)) + n_old s + n_dropped s + n_unint s.
   Proof. exact accounting_run. Qed.
+
+  (* ---------------- FlushAndShutdown retries until the partial batch is on the channel ---------------- *)
+
+  (* tryEnqueueingBatch on a full channel changes nothing and leaves the flush goroutine where it
+     was (FNone): the step stays enabled, i.e. FlushAndShutdown must try again ... *)
+  Lemma flush_full_is_noop : forall sh,
+    sh_fl sh = FNone -> q_batch (sh_q sh) <> [] -> (nbq <= length (q_chan (sh_q sh)))%nat ->
+    sh_flushpush nbq false sh = sh.
+  Proof.
+    intros [[b c cl] infl ex fl] Hf Hb Hc. simpl in *. subst fl. unfold sh_flushpush, q_tryflush. simpl.
+    destruct b as [|x b]; [congruence|].
+    assert (Nat.ltb (length c) nbq = false) as -> by (apply Nat.ltb_ge; exact Hc). reflexivity.
+  Qed.
+
+  (* ... and the channel is not closed before a try has succeeded (or found nothing to flush) *)
+  Lemma close_needs_flush : forall sh, sh_fl sh = FNone -> sh_flushclose sh = sh.
+  Proof. intros sh H. unfold sh_flushclose. rewrite H. reflexivity. Qed.
+
+  (* as soon as the channel has room the try succeeds: the partial batch is handed over whole *)
+  Lemma flush_succeeds_with_room : forall sh,
+    sh_fl sh = FNone -> (length (q_chan (sh_q sh)) < nbq)%nat ->
+    let sh' := sh_flushpush nbq false sh in
+    sh_fl sh' = FPushed /\ q_batch (sh_q sh') = [] /\ pipe sh' = pipe sh.
+  Proof.
+    intros sh Hf Hc sh'. split; [|split]; [| |apply pipe_flushpush].
+    - unfold sh', sh_flushpush, q_tryflush. rewrite Hf.
+      destruct (q_batch (sh_q sh)); simpl; auto. apply Nat.ltb_lt in Hc. rewrite Hc. reflexivity.
+    - unfold sh', sh_flushpush, q_tryflush. rewrite Hf.
+      destruct (q_batch (sh_q sh)) eqn:Eb; simpl; auto. apply Nat.ltb_lt in Hc. rewrite Hc. reflexivity.
+  Qed.
+
+  (* in every reachable state a closed queue has no partial batch left behind, and a queue whose
+     flush has not succeeded yet is still open *)
+  Theorem closed_only_after_flush : forall n0 ops k sh, (0 < n0)%nat ->
+    nth_error (shards (run n0 ops)) k = Some sh ->
+    (q_closed (sh_q sh) = true -> sh_fl sh = FClosed /\ q_batch (sh_q sh) = [])
+    /\ (sh_fl sh = FNone -> q_closed (sh_q sh) = false).
+  Proof.
+    intros n0 ops k sh Hn Hk. destruct (W_run n0 ops Hn) as [[_ Hw] _].
+    destruct (Hw _ _ Hk) as [_ [H2 [_ H4]]]. split.
+    - intros Hc. rewrite Hc in H2. destruct (sh_fl sh) eqn:Ef; try discriminate.
+      split; auto. apply H4. discriminate.
+    - intros Hf. rewrite Hf in H2. exact H2.
+  Qed.
 End Proofs.
 
 (* ---------------- witnesses ---------------- *)
